@@ -612,12 +612,178 @@ pub proof fn lemma_prefix_covers(gv: Seq<Variable>, vs: Seq<asp::Variable>, r: a
 //@     }
 //@end
 
+//@fn src/translating/formula_representation/tau_star.rs :: fn tau_star_prop_head_rule
+//@ .ret res
+//@ .attr #[verifier::loop_isolation(false)]
+//@ .spec
+//@     requires !(r.head is Falsity), head_args(r.head).len() == 0,
+//@     ensures rule_ok(res, *r),
+//@ .loop 1 as it
+//@     invariant
+//@         it.seq().len() == d17_t0@.len(), forall|j: int| 0 <= j < d17_t0@.len() ==> *it.seq()[j] == d17_t0@[j],
+//@         prefix_inv(gvars@, d17_t0@, it.index@ as int),
+//@ .endloop 1
+//@     proof { lemma_prefix_covers(gvars@, d17_t0@, *r); }
+//@ .hint before "let new_body = match &r.head {"
+//@     let ghost e = Seq::<String>::empty();
+//@     let ghost core = core_lhs;
+//@     proof {
+//@         lemma_core_prop(*r, core);
+//@         assert(zterms(e) =~= Seq::<GeneralTerm>::empty());
+//@     }
+//@ .hint before "gvars.sort();"
+//@     let ghost gv0 = gvars@;
+//@     proof {
+//@         assert(imp_shape(imp, core, r.head, e));
+//@         lemma_imp_sem(*r, e, core, imp);
+//@     }
+//@ .hint after "gvars.sort();"
+//@     proof {
+//@         lemma_perm_prefix(gv0, gvars@);
+//@         assert forall|k: VKey| !bound_by(zvars(e), k) by { lemma_zvars_bound(e, k); }
+//@         assert(rule_side(*r, gvars@, e));
+//@         assert forall|f: Formula| closure_shape(f, gvars@, imp) implies #[trigger] rule_ok(f, *r) by { lemma_rule_closed(*r, f, gvars@, e, imp); }
+//@     }
+//@end
+
+// ASSUMED CONTRACT of valtz (drain/zip/map over two vectors, outside Verus' subset): the conjunction of val_ti(Vi)
+//@fn src/translating/formula_representation/tau_star.rs :: fn valtz
+//@ .ret r
+//@ .sig assumed
+//@ .spec
+//@     requires terms@.len() == variables@.len(), forall|i: int| 0 <= i < variables@.len() ==> (#[trigger] variables@[i]).sort == Sort::General,
+//@     ensures exists|vals: Seq<Formula>| r == #[trigger] spec_conjoin(vals) && vals.len() == terms@.len()
+//@         && forall|i: int| 0 <= i < vals.len() ==> #[trigger] val_ok(vals[i], terms@[i], variables@[i]),
+//@end
+
+/// the head variables V taken from the list of fresh global names
+pub open spec fn globals_ok(globals: Seq<String>, r: asp::Rule) -> bool {
+    &&& head_args(r.head).len() <= globals.len()
+    &&& distinct_names(globals)
+    &&& forall|i: int, k: VKey| 0 <= i < globals.len() && #[trigger] rule_in(r, k) ==> k != #[trigger] zkey(globals[i])
+}
+
+//@fn src/translating/formula_representation/tau_star.rs :: fn tau_star_fo_head_rule
+//@ .ret res
+//@ .attr #[verifier::loop_isolation(false)]
+//@ .spec
+//@     requires !(r.head is Falsity), globals_ok(globals@, *r),
+//@     ensures rule_ok(res, *r),
+//@ .loop 1 as it
+//@     invariant
+//@         it.seq().len() == d17_t0@.len(), forall|j: int| 0 <= j < d17_t0@.len() ==> *it.seq()[j] == d17_t0@[j],
+//@         prefix_inv(gvars@, d17_t0@, it.index@ as int),
+//@ .endloop 1
+//@     proof { lemma_prefix_covers(gvars@, d17_t0@, *r); }
+//@ .hint before "let head_terms = r.head.terms().unwrap();"
+//@     let ghost gv1 = gvars@;
+//@     let ghost vnames = fvars@;
+//@     proof { assert(vnames =~= globals@.subrange(0, head_arity as int)); }
+//@ .loop 2 as it2
+//@     invariant
+//@         d14_k0 == it2.index@, 0 <= it2.index@ <= head_terms@.len(),
+//@         it2.seq().len() == head_terms@.len(),
+//@         new_terms@.len() == it2.index@, fo_vars@.len() == it2.index@,
+//@         forall|j: int| 0 <= j < it2.index@ ==> #[trigger] fo_vars@[j] == zvar(vnames[j]),
+//@         forall|j: int| 0 <= j < it2.index@ ==> #[trigger] new_terms@[j] == GeneralTerm::Variable(vnames[j]),
+//@ .hint after "new_terms.push(fol_term);"
+//@     proof {
+//@         assert(fo_vars@[i as int] == zvar(vnames[i as int]));
+//@         assert(new_terms@[i as int] == GeneralTerm::Variable(vnames[i as int]));
+//@     }
+//@ .hint before "let valtz = valtz(head_terms.to_vec(), fo_vars);"
+//@     proof {
+//@         assert(fo_vars@ =~= zvars(vnames));
+//@         assert(new_terms@ =~= zterms(vnames));
+//@     }
+//@ .hint before "let new_body = match r.head {"
+//@     let ghost core = core_lhs;
+//@     proof {
+//@         let vals = choose|vals: Seq<Formula>| valtz == #[trigger] spec_conjoin(vals) && vals.len() == head_terms@.len()
+//@             && forall|i: int| 0 <= i < vals.len() ==> #[trigger] val_ok(vals[i], head_terms@[i], zvars(vnames)[i]);
+//@         assert forall|i: int| 0 <= i < vals.len() implies #[trigger] val_ok(vals[i], head_args(r.head)[i], zvar(vnames[i])) by {
+//@             assert(val_ok(vals[i], head_terms@[i], zvars(vnames)[i]));
+//@         }
+//@         lemma_core_fo(*r, vnames, vals, *core->BinaryFormula_rhs, core);
+//@     }
+//@ .hint before "for var in fvars.iter() {"
+//@     proof {
+//@         assert(imp_shape(imp, core, r.head, vnames));
+//@         lemma_imp_sem(*r, vnames, core, imp);
+//@     }
+//@ .loop 3 as it3
+//@     invariant
+//@         it3.seq().len() == vnames.len(), forall|j: int| 0 <= j < vnames.len() ==> *it3.seq()[j] == vnames[j],
+//@         gvars@.len() == gv1.len() + it3.index@,
+//@         forall|j: int| 0 <= j < gv1.len() ==> #[trigger] gvars@[j] == gv1[j],
+//@         forall|j: int| 0 <= j < it3.index@ ==> #[trigger] gvars@[gv1.len() + j] == zvar(vnames[j]),
+//@ .hint before "gvars.sort();"
+//@     let ghost gv0 = gvars@;
+//@     proof {
+//@         assert forall|i: int| gv1.len() <= i < gv0.len() implies gv0[i] == zvars(vnames)[i - gv1.len()] by {
+//@             let j = i - gv1.len();
+//@             assert(gvars@[gv1.len() + j] == zvar(vnames[j]));
+//@         }
+//@         assert(gv0 =~= gv1 + zvars(vnames));
+//@         assert forall|k: VKey| rule_in(*r, k) || bound_by(zvars(vnames), k) implies #[trigger] bound_by(gv0, k) by { lemma_bound_by_concat(gv1, zvars(vnames), k); }
+//@         assert(all_general(gv0));
+//@     }
+//@ .hint after "gvars.sort();"
+//@     proof {
+//@         lemma_perm_prefix(gv0, gvars@);
+//@         assert(rule_side(*r, gvars@, vnames));
+//@         assert forall|f: Formula| closure_shape(f, gvars@, imp) implies #[trigger] rule_ok(f, *r) by { lemma_rule_closed(*r, f, gvars@, vnames, imp); }
+//@     }
+//@end
+
+//@fn src/translating/formula_representation/tau_star.rs :: fn tau_star_rule
+//@ .ret res
+//@ .spec
+//@     requires globals_ok(globals@, *r),
+//@     ensures rule_ok(res, *r),
+//@end
+
+/// the list of head variables serves every rule of the program
+pub open spec fn program_globals_ok(globals: Seq<String>, p: asp::Program) -> bool {
+    forall|i: int| 0 <= i < p.rules@.len() ==> #[trigger] globals_ok(globals, p.rules@[i])
+}
+
+// ASSUMED COMPOSITION of choose_fresh_global_variables: its first and last sections are verified below as the fragments
+// `globals_max_arity` and `globals_numbering` (whose postconditions give this contract by lemma_globals_compose); what is assumed is
+// that the middle section (a read-only loop over the program's variables using the regex crate, outside Verus' subset) assigns
+// nothing but `max_taken_var`.
+//@fn src/translating/formula_representation/tau_star.rs :: fn choose_fresh_global_variables
+//@ .ret r
+//@ .sig assumed
+//@ .spec
+//@     ensures program_globals_ok(r@, *program),
+//@end
+
+/// tau*(P): one sentence per rule, each true exactly when every ground instance of its rule is satisfied
+pub open spec fn theory_ok(t: Theory, p: asp::Program) -> bool {
+    t.formulas@.len() == p.rules@.len() && forall|i: int| 0 <= i < p.rules@.len() ==> #[trigger] rule_ok(t.formulas@[i], p.rules@[i])
+}
+
+//@fn src/translating/formula_representation/tau_star.rs :: fn tau_star
+//@ .ret res
+//@ .attr #[verifier::loop_isolation(false)]
+//@ .spec
+//@     ensures theory_ok(res, p),
+//@ .loop 1 as it
+//@     invariant
+//@         it.seq().len() == p.rules@.len(), forall|j: int| 0 <= j < p.rules@.len() ==> *it.seq()[j] == p.rules@[j],
+//@         formulas@.len() == it.index@,
+//@         forall|j: int| 0 <= j < it.index@ ==> rule_ok(#[trigger] formulas@[j], p.rules@[j]),
+//@ .hint before "formulas.push(tau_star_rule(r, &globals));"
+//@     proof { assert(globals_ok(globals@, p.rules@[it.index@ as int])); }
+//@end
+
 } // verus!
 pub mod asp {
     use vstd::prelude::*;
     use vstd::std_specs::iter::IteratorSpec;
     use super::{IndexSet, seq_extend, seq_insert, lemma_seq_extend_contains, VKey, asp_in_term, asp_var_key, has_key, terms_in, af_in,
-        lemma_has_key_extend, lemma_has_key_contains, head_pred, head_terms, head_in, body_in, rule_in};
+        lemma_has_key_extend, lemma_has_key_contains, head_pred, head_args, head_in, body_in, rule_in};
     verus! {
     broadcast use {super::axiom_string_ext, super::axiom_vec_ext};
 //@include units/asp_types.inc
@@ -690,17 +856,17 @@ impl Head {
 //@fn src/syntax_tree/asp/mini_gringo.rs :: impl Head :: fn predicate
 //@ .ret r
 //@ .spec
-//@     ensures r is Some == !(self is Falsity), r is Some ==> r->Some_0.symbol@ == head_pred(*self) && r->Some_0.arity == head_terms(*self).len(),
+//@     ensures r is Some == !(self is Falsity), r is Some ==> r->Some_0.symbol@ == head_pred(*self) && r->Some_0.arity == head_args(*self).len(),
 //@end
 //@fn src/syntax_tree/asp/mini_gringo.rs :: impl Head :: fn terms
 //@ .ret r
 //@ .spec
-//@     ensures r is Some == !(self is Falsity), r is Some ==> r->Some_0@ == head_terms(*self),
+//@     ensures r is Some == !(self is Falsity), r is Some ==> r->Some_0@ == head_args(*self),
 //@end
 //@fn src/syntax_tree/asp/mini_gringo.rs :: impl Head :: fn arity
 //@ .ret r
 //@ .spec
-//@     ensures r == head_terms(*self).len(),
+//@     ensures r == head_args(*self).len(),
 //@end
 //@fn src/syntax_tree/asp/mini_gringo.rs :: impl Head :: fn variables
 //@ .ret r
